@@ -71,7 +71,16 @@ def binding_selftest():
                 return i + 1
         raise ToolError("selftest: no decl")
 
-    ok = run_mut("corrupt_field", corrupt_field) & run_mut("drop_event", drop_event) & run_mut("shift_disc", shift_disc)
+    def change_rename(ls):
+        # the declaration is part of the binding: another rename string in the decl event changes every expected name
+        for i, l in enumerate(ls):
+            if '"ev":"decl"' in l and '{"k":"some","s":[' in l:
+                ls[i] = l.replace('{"k":"some","s":[', '{"k":"some","s":[63,', 1)
+                return i + 1
+        raise ToolError("selftest: no decl with a rename")
+
+    ok = (run_mut("corrupt_field", corrupt_field) & run_mut("drop_event", drop_event) & run_mut("shift_disc", shift_disc)
+          & run_mut("change_rename", change_rename))
     report["ok"] = bool(ok)
     json.dump(report, open(os.path.join(WORK, "selftest.json"), "w"), indent=1)
     log("binding self-test:", json.dumps(report))
